@@ -290,7 +290,10 @@ func (c *FnCtx) evalCall(st *State, call *ast.CallExpr) []Term {
 	fc.Used = true
 	args := c.evalArgs(st, call, sig)
 	c.callSiteAsserts(st, key, sig, recv, sig.Recv(), args, call.Pos())
-	if hasRecv && c.safety {
+	if fc.RecvNonNil {
+		c.e.trusted["receiver of "+key+" assumed non-nil at every call"] = true
+	}
+	if hasRecv && c.safety && !fc.RecvNonNil {
 		if _, isPtr := sig.Recv().Type().Underlying().(*types.Pointer); isPtr {
 			if !addrOfValue {
 				c.nilCheck(st, recv, call.Pos(), "receiver:"+fn.Name())
@@ -793,6 +796,9 @@ func (c *FnCtx) matchOnSend(elem types.Type, kind string) []*OnSend {
 		if i := strings.Index(want, ":"); i >= 0 {
 			k = want[:i]
 			want = want[i+1:]
+		}
+		if os.OnlyFn != "" && !strings.HasSuffix(c.baseKey(), "."+os.OnlyFn) {
+			continue
 		}
 		if k == kind && want == name && (os.DefPkg == "" || os.DefPkg == c.fi.Pkg.PkgPath) {
 			out = append(out, os)
